@@ -490,8 +490,13 @@ def xyz_reader(reader_class: ReadAndProcessOnTheFly) -> List[np.ndarray]:
     if reader_class.file_object is None:
         return trajectory
     for i, line in enumerate(iter(reader_class.file_object.readline, "")):
+        # a line without its newline is still being written
+        if line[-1] != "\n":
+            return trajectory
         spl = line.split()
-        if i == 0 and spl:
+        if i == 0:
+            if not spl:
+                return trajectory
             N_atoms = int(spl[0])
             block_size = N_atoms + 2  # 2 header lines
         # if we are not in the atom nr or header block
